@@ -85,11 +85,18 @@ func scenarioViewer(c *hlib.RunCtx) *hlib.Violation {
 			fail("viewer-summary-set", "%s: build approved=%v but the viewer's summary is %q", e.Name(), buildOK, v.Summary)
 		}
 		var excluded []string
+		maybe := map[string]bool{} // names the viewer may describe either way
 		for raw := range d.Counts {
 			name := refstack.Expand(raw)
 			if strings.Contains(name, "\n") {
-				_, ok := cfg.Ref.StackRate(prog, name)
+				rate, ok := cfg.Ref.StackRate(prog, name)
 				act, present := v.Stacks[name]
+				if ok && rate < 1 {
+					// listed with a rate below 1: whether a given report carries it depends on
+					// that report's X (never, for rate 0); either description is right
+					maybe[name[:strings.Index(name, "\n")]] = true
+					continue
+				}
 				if !present {
 					fail("viewer-stack-missing", "%s: stack %q is not listed by the viewer", e.Name(), strings.ReplaceAll(name, "\n", "\\n"))
 				} else if act != ok {
@@ -99,8 +106,12 @@ func scenarioViewer(c *hlib.RunCtx) *hlib.Violation {
 					excluded = append(excluded, name[:strings.Index(name, "\n")])
 				}
 			} else {
-				_, ok := cfg.Ref.CounterRate(prog, name)
+				rate, ok := cfg.Ref.CounterRate(prog, name)
 				act, present := v.Counts[name]
+				if ok && rate < 1 {
+					maybe[name] = true
+					continue
+				}
 				if !present {
 					fail("viewer-counter-missing", "%s: counter %q is not listed by the viewer", e.Name(), name)
 				} else if act != ok {
@@ -118,7 +129,7 @@ func scenarioViewer(c *hlib.RunCtx) *hlib.Violation {
 					fail("viewer-summary-counters", "%s: %q would be excluded from a report but the viewer's summary does not say so: %q", e.Name(), x, v.Summary)
 				}
 			}
-			if len(excluded) == 0 && strings.Contains(v.Summary, "would be excluded") {
+			if len(excluded) == 0 && len(maybe) == 0 && strings.Contains(v.Summary, "would be excluded") {
 				fail("viewer-summary-counters", "%s: every counter would be uploaded but the viewer's summary says %q", e.Name(), v.Summary)
 			}
 			for _, part := range strings.Split(v.Summary, "<code>")[1:] {
@@ -129,7 +140,7 @@ func scenarioViewer(c *hlib.RunCtx) *hlib.Violation {
 						found = true
 					}
 				}
-				if !found && strings.Contains(v.Summary, "Unregistered counter") {
+				if !found && !maybe[nm] && strings.Contains(v.Summary, "Unregistered counter") {
 					fail("viewer-summary-counters", "%s: the viewer's summary lists %q as excluded, but the uploader would send it", e.Name(), nm)
 				}
 			}
@@ -172,14 +183,19 @@ func scenarioViewer(c *hlib.RunCtx) *hlib.Violation {
 				continue
 			}
 			var excluded []string
+			lowRate := false
 			for n := range p.Counters {
-				if _, ok := cfg.Ref.CounterRate(b.Program, n); !ok {
+				if r, ok := cfg.Ref.CounterRate(b.Program, n); !ok {
 					excluded = append(excluded, n)
+				} else if r < 1 {
+					lowRate = true
 				}
 			}
 			for n := range p.Stacks {
-				if _, ok := cfg.Ref.StackRate(b.Program, n); !ok {
+				if r, ok := cfg.Ref.StackRate(b.Program, n); !ok {
 					excluded = append(excluded, n[:strings.Index(n, "\n")])
+				} else if r < 1 {
+					lowRate = true
 				}
 			}
 			sort.Strings(excluded)
@@ -188,7 +204,7 @@ func scenarioViewer(c *hlib.RunCtx) *hlib.Violation {
 					fail("viewer-report-counters", "local report, build %v: %q would be excluded from an upload but the viewer's summary does not say so: %q", b, x, sums[i])
 				}
 			}
-			if len(excluded) == 0 && strings.Contains(sums[i], "would be excluded") {
+			if len(excluded) == 0 && !lowRate && strings.Contains(sums[i], "would be excluded") {
 				fail("viewer-report-counters", "local report, build %v: everything would be uploaded but the viewer's summary says %q", b, sums[i])
 			}
 		}
